@@ -134,6 +134,21 @@ def history_sweep(ctx, n):
     return None
 
 
+def multi_sweep(ctx, n):
+    """n systems with 2-3 command channels each (identical instance names under different wrappers; system clock, one shared or one
+    derived clock domain per channel), all channels running concurrently, each judged against the Python copy of the spec."""
+    py4hw = common.quiet_import()
+    for k, case in enumerate(L.multi_cases(random.Random(ctx.seed * 400009 + 3), n)):
+        res = L.run_multi(py4hw, case)
+        ctx.count(('multi', case['channels'], case['domains'], case['layout'], case['drv_wire'], tuple(c['stream'] for c in res['channels'])),
+                  n=max(res['cycles'], 1) * case['channels'])
+        if k < 1: ctx.sample({'multi_channel_system': {x: case[x] for x in ('channels', 'domains', 'layout', 'drv_wire')}, 'channels': res['channels'][:2]})
+        if res['bad']:
+            return L.multi_replay(res)
+    ctx.notes['multi_channel_systems'] = n
+    return None
+
+
 def structured_search(ctx, budget_cases):
     """impl vs the Python spec only (no Coq): exhaustive short digit strings for every command, boundary values,
     every terminator after every prefix letter, long random streams."""
@@ -220,6 +235,8 @@ def run(ctx):
     if isinstance(qruns, tuple): qruns = []
     if found is None:
         found = history_sweep(ctx, 48 if q else 480)
+    if found is None:
+        found = multi_sweep(ctx, 16 if q else 160)
     ctx.log('real-block sweeps + construction histories: %s' % ('impl != spec' if found else 'impl = python copy of the spec'))
     if found is None and have_model:
         try:
